@@ -4344,11 +4344,16 @@ class NetCDFRead(IORead):
                     z_ncdim=z_ncdims[0] if z_ncdims else None,
                 )
 
-            ok = True
             domain_ancillaries = []
-            for term, ncvar in g["formula_terms"][coord_ncvar][
+
+            # The formula terms of this coordinate for this field or
+            # domain. A term whose variable can not be mapped is kept
+            # with a value of None, exactly as for a variable that is
+            # not in the file.
+            coord_formula_terms = g["formula_terms"][coord_ncvar][
                 "coord"
-            ].items():
+            ].copy()
+            for term, ncvar in tuple(coord_formula_terms.items()):
                 if ncvar is None:
                     continue
 
@@ -4387,13 +4392,9 @@ class NetCDFRead(IORead):
                         },
                         dimensions=g["variable_dimensions"][ncvar],
                     )
-                    ok = False
+                    coord_formula_terms[term] = None
 
-            if not ok:
-                # Move on to the next coordinate
-                continue
-
-            # Still here? Create a formula terms coordinate reference.
+            # Create a formula terms coordinate reference.
             for ncvar, domain_anc, axes in domain_ancillaries:
                 logger.detail(
                     f"        [g] Inserting {domain_anc.__class__.__name__}"
@@ -4418,7 +4419,7 @@ class NetCDFRead(IORead):
                 g["domain_ancillary_key"][ncvar] = da_key
 
             coordinate_reference = self._create_formula_terms_ref(
-                f, key, coord, g["formula_terms"][coord_ncvar]["coord"]
+                f, key, coord, coord_formula_terms
             )
 
             self.implementation.set_coordinate_reference(
